@@ -152,6 +152,27 @@ fn refs<T: Pod, X: Dummy>(cur: &VolatileSlice<'_, ()>, env: &mut Env, depth: usi
                     let s = a.to_slice();
                     let ne = Ext::of(&s);
                     ensure!(pe.contains(&ne) && s.len() == n * sz, "get_array_ref::<{}>({:#x},{}).to_slice() {:x?} outside parent {:x?}", T::NAME, o, n, ne, pe);
+                    if t.chance(1, 4) {
+                        // an out-of-range index is a documented panic: it must never yield a
+                        // reference (neither inside nor outside the array)
+                        let bad = match t.below(4) {
+                            0 => n,
+                            1 => n + 1 + t.idx(3),
+                            2 => n.saturating_mul(sz).saturating_sub(1).max(n),
+                            _ => arg(t, n, pe.ptr).max(n),
+                        };
+                        note!(cx, "ref_at({}) of an array of {}", bad, n);
+                        cx.nt("out_of_range_index");
+                        let got = no_panic(|| {
+                            let r = a.ref_at(bad);
+                            r.ptr_guard().as_ptr() as usize
+                        });
+                        if let Ok(p) = got {
+                            return Err(format!("array::<{}>({:#x},{}).ref_at({}) returned a reference at {:#x} instead of panicking (the array covers {:x?})", T::NAME, o, n, bad, p, ne));
+                        }
+                        let got = no_panic(|| a.load(bad));
+                        ensure!(got.is_err(), "array::<{}>({:#x},{}).load({}) returned a value instead of panicking", T::NAME, o, n, bad);
+                    }
                     if n > 0 {
                         let i = if t.flag() { n - 1 } else { t.idx(n) };
                         let r = a.ref_at(i);
